@@ -489,7 +489,9 @@ func c04Gen(tier string, rng *rand.Rand, emit func(string)) map[string]interface
 		}
 		emit(fam + ": " + strings.Join(toks, " ; "))
 	}
+	httpExh, httpRandom := c04HGen(tier, rng, emit)
 	return map[string]interface{}{
+		"http_exhaustive_cases": httpExh, "http_random_cases": httpRandom,
 		"exhaustive":              false,
 		"exhaustive_prefix_scope": "per setup and family: all programs of length <= 2 over the full alphabet and operand choices; all length-3 sequences of operation kinds with seeded operands",
 		"setups":                  len(c04Setups),
